@@ -110,6 +110,17 @@ F_CompareRF(Vr, Vc, tips, res) ==
       C == CmpSplits(Vc, tips)
   IN  Fail("RobinsonFouldsIsSymmetricDifference", res.rf = Cardinality(R \ C) + Cardinality(C \ R))
 
+\* `compare trees --weighted`: wRF = sum |l_ref - l_cmp| over shared splits + lengths of unshared ones (exact on dyadic lengths;
+\* the printed value has 7 significant digits, enough for multiples of 1/16 below 10^5); KF is zero exactly when wRF is
+F_CompareWeightedCLI(Vr, Vc, tips, res) ==
+  LET R  == CmpSplits(Vr, tips)
+      C  == CmpSplits(Vc, tips)
+      lr == SplitLen(Vr)
+      lc == SplitLen(Vc)
+      exp == SumOver(R \cap C, LAMBDA s : AbsN(lr[s] - lc[s])) + SumOver(R \ C, LAMBDA s : lr[s]) + SumOver(C \ R, LAMBDA s : lc[s])
+  IN  Fail("WeightedRobinsonFoulds", res.wrf = exp)
+      \cup Fail("BranchScoreZeroIffIdentical", ~res.kfneg /\ (res.kfzero = (exp = 0)))
+
 F_CompareWeighted(Vr, Vc, tips, res) ==
   IF Vr.names # Vc.names THEN Fail("CompareRejectsOtherTaxa", res.err)
   ELSE IF res.err THEN {"CompareAcceptsSameTaxa"}
